@@ -15,6 +15,39 @@ STATS = {'functions': set(), 'runs': 0, 'paths': 0, 'calls_internal': 0, 'calls_
 _KNOWN = None
 
 
+NT_FIELDS = {}          # key of a tuple value built by a namedtuple class -> its field names
+
+
+def namedtuple_fields(module, name):
+    """field names when the module-level `name` is bound to collections.namedtuple('X', fields)"""
+    val = module.globals.get(name)
+    if not isinstance(val, ast.Call):
+        return None
+    d = dotted(val.func) or ''
+    if d.split('.')[-1] != 'namedtuple' or len(val.args) < 2:
+        return None
+    f = val.args[1]
+    if isinstance(f, (ast.List, ast.Tuple)) and all(isinstance(e, ast.Constant) and isinstance(e.value, str) for e in f.elts):
+        return tuple(e.value for e in f.elts)
+    if isinstance(f, ast.Constant) and isinstance(f.value, str):
+        return tuple(f.value.replace(',', ' ').split())
+    return None
+
+
+def returned_namedtuple_fields(repo, fi):
+    """field names when every `return` of the function builds the same module-level namedtuple"""
+    found = set()
+    for n in ast.walk(fi.node):
+        if isinstance(n, ast.Return):
+            if not (isinstance(n.value, ast.Call) and isinstance(n.value.func, ast.Name)):
+                return None
+            fl = namedtuple_fields(fi.module, n.value.func.id)
+            if fl is None:
+                return None
+            found.add(fl)
+    return found.pop() if len(found) == 1 else None
+
+
 def known_functions():
     global _KNOWN
     if _KNOWN is None:
@@ -461,6 +494,17 @@ class Interp(ExprMixin):
                     return self.call_internal(v[1], args, kwargs, st, node)
                 if v[0] == 'closure':
                     return self.call_closure(v[1], args, kwargs, st, node)
+                if v[0] == 'namedtuple':
+                    # N(a, b) / N(x=a, y=b): a tuple whose items also answer to the field names
+                    fields = list(v[2])
+                    items = list(args) + [None] * (len(fields) - len(args))
+                    for k_, val_ in kwargs.items():
+                        if k_ in fields:
+                            items[fields.index(k_)] = val_
+                    if len(items) == len(fields) and all(i is not None for i in items):
+                        t = Tup(items, 'tuple')
+                        NT_FIELDS[t.key] = tuple(fields)
+                        return t
                 if v[0] == 'partial':
                     # functools.partial(f, *a, **k)(*b, **m) is f(*a, *b, **{**k, **m})
                     _, inner, pargs, pkw = v
